@@ -31,7 +31,7 @@ def strategy(tier):
 
 
 def n_random(tier):
-    return 2400 if tier == "quick" else 120000
+    return 2400 if tier == "quick" else 15000
 
 
 def check(case):
